@@ -499,3 +499,118 @@ func srcBase(v ssa.Value) ssa.Value {
 	}
 	return v
 }
+
+func init() {
+	register("F11", "copy-on-write flags are book-keeping: no exported function with a scalar result (predicate, count, extremum, ...) reads needCopyOnWrite, directly or through scalar-valued callees", ruleF11)
+}
+
+func ruleF11(p *Prog) *RuleResult {
+	res := newResult("F11", ruleDoc["F11"], 40)
+	// functions that read a flag directly
+	direct := map[*ssa.Function]string{}
+	for _, f := range p.sourceFns() {
+		for _, b := range f.Blocks {
+			for _, ins := range b.Instrs {
+				u, ok := ins.(*ssa.UnOp)
+				if !ok || u.Op != token.MUL {
+					continue
+				}
+				if ia, ok := u.X.(*ssa.IndexAddr); ok {
+					if ld, ok := ia.X.(*ssa.UnOp); ok && ld.Op == token.MUL {
+						if fa, ok := ld.X.(*ssa.FieldAddr); ok && strings.HasSuffix(fieldName(fa.X.Type(), fa.Field), ".needCopyOnWrite") {
+							direct[f] = p.ipos(u)
+						}
+					}
+					if fl, ok := ia.X.(*ssa.Field); ok && strings.HasSuffix(fieldName(fl.X.Type(), fl.Field), ".needCopyOnWrite") {
+						direct[f] = p.ipos(u)
+					}
+				}
+			}
+		}
+	}
+	if len(direct) < 3 {
+		res.undecided("flag readers", "-", fmt.Sprintf("only %d functions read needCopyOnWrite: the field was renamed or the recogniser is stale", len(direct)))
+	}
+	hasBitmapResult := func(f *ssa.Function) bool {
+		rs := f.Signature.Results()
+		for i := 0; i < rs.Len(); i++ {
+			if hasPointers(rs.At(i).Type()) && !isErrorType(rs.At(i).Type()) {
+				return true
+			}
+		}
+		return false
+	}
+	// transitive closure over static calls and interface dispatch inside the repo
+	own := p.OWN()
+	reads := map[*ssa.Function]string{}
+	for f, w := range direct {
+		reads[f] = fname(f) + " @" + w
+	}
+	for changed := true; changed; {
+		changed = false
+		for _, f := range p.sourceFns() {
+			if _, ok := reads[f]; ok {
+				continue
+			}
+			for _, b := range f.Blocks {
+				for _, ins := range b.Instrs {
+					var c *ssa.CallCommon
+					switch x := ins.(type) {
+					case *ssa.Call:
+						c = &x.Call
+					case *ssa.Go:
+						c = &x.Call
+					case *ssa.Defer:
+						c = &x.Call
+					default:
+						continue
+					}
+					var callees []*ssa.Function
+					if c.IsInvoke() {
+						callees = own.lookupImpls(c)
+					} else if g := c.StaticCallee(); g != nil {
+						callees = append(callees, g)
+					}
+					for _, g := range callees {
+						// a callee that builds or updates a bitmap reads flags to decide sharing of that
+						// object, not to compute a value: only scalar-valued callees carry the dependency
+						if g.Signature.Results().Len() == 0 || hasBitmapResult(g) {
+							continue
+						}
+						if w, ok := reads[g]; ok {
+							if _, seen := reads[f]; !seen {
+								reads[f] = fname(f) + " -> " + w
+								changed = true
+							}
+						}
+					}
+				}
+			}
+		}
+	}
+	for _, f := range p.sourceFns() {
+		if !isExportedAPI(f) || hasBitmapResult(f) || f.Signature.Results().Len() == 0 {
+			continue
+		}
+		recv := ""
+		if r := f.Signature.Recv(); r != nil {
+			recv = typeShort(r.Type())
+		}
+		if (strings.HasSuffix(recv, "Bitmap") && mutatorMethods[f.Name()]) || (strings.HasSuffix(recv, "BSI") && bsiMutators[f.Name()]) {
+			continue
+		}
+		if !(strings.HasSuffix(recv, "Bitmap") || strings.HasSuffix(recv, "BSI") || recv == "") {
+			continue
+		}
+		if f.Name() == "Stats" || f.Name() == "GetSizeInBytes" {
+			continue // diagnostics about the in-memory representation, not functions of the set
+		}
+		c := fname(f)
+		if w, ok := reads[f]; ok {
+			res.bad(c, p.pos(f.Pos()), "a scalar query depends on copy-on-write flags: its answer can differ between bitmaps with equal contents", strings.Split(w, " -> ")...)
+		} else {
+			res.ok(c, p.pos(f.Pos()), "")
+		}
+	}
+	return res
+}
